@@ -107,7 +107,11 @@ func (g *PageGen) mediaURL(ext string) string {
 	if !g.RelURLs {
 		return "http://example.com/img/" + base
 	}
-	switch g.R.Intn(6) {
+	switch g.R.Intn(8) {
+	case 6:
+		return "/wiki/Special:FilePath/" + base
+	case 7:
+		return "pics/set:2/" + base
 	case 0:
 		return "img/" + base
 	case 1:
@@ -175,9 +179,24 @@ func (g *PageGen) inline(n int, depth int) string {
 		case c < 11:
 			sb.WriteString(`<a href="` + g.linkURL() + `"` + g.deco() + `>` + g.inline(k, depth+1) + "</a>")
 		case c < 12:
-			sb.WriteString(g.words(k) + "<br>")
+			if g.R.Chance(40) {
+				// a paragraph break inside the paragraph, followed by a link-heavy line
+				sb.WriteString(g.words(k) + "<br><br>")
+				for j := g.R.Range(1, 3); j > 0; j-- {
+					sb.WriteString(`<a href="` + g.linkURL() + `">` + g.words(2) + "</a> ")
+				}
+			} else {
+				sb.WriteString(g.words(k) + "<br>")
+			}
 		case c < 13:
-			sb.WriteString(`<a href="javascript:void(0)">` + g.words(k) + "</a>")
+			switch g.R.Intn(4) {
+			case 0:
+				sb.WriteString(`<a href="javascript:void(0)">` + g.words(1) + " <b>" + g.words(k) + "</b> " + g.words(1) + "</a>")
+			case 1:
+				sb.WriteString(`<a href="javascript:void(0)"><i>` + g.words(k) + "</i></a>")
+			default:
+				sb.WriteString(`<a href="javascript:void(0)">` + g.words(k) + "</a>")
+			}
 		default:
 			sb.WriteString(g.words(k) + " , " + g.word() + " . ")
 		}
@@ -193,7 +212,13 @@ func (g *PageGen) linkURL() string {
 	if !g.RelURLs {
 		return fmt.Sprintf("http://example.com/l%d.html", g.media)
 	}
-	switch g.R.Intn(7) {
+	switch g.R.Intn(10) {
+	case 7:
+		return fmt.Sprintf("/wiki/Help:l%d", g.media)
+	case 8:
+		return fmt.Sprintf("notes/ch:l%d.html", g.media)
+	case 9:
+		return fmt.Sprintf("../talk/Topic:l%d?x=1", g.media)
 	case 0:
 		return fmt.Sprintf("l%d.html", g.media)
 	case 1:
@@ -237,9 +262,14 @@ func (g *PageGen) list(depth int) string {
 				sb.WriteString(g.inline(g.R.Range(1, 8), 0))
 			}
 		default:
-			if g.R.Chance(50) {
+			switch g.R.Intn(4) {
+			case 0:
 				sb.WriteString(g.img())
-			} else {
+			case 1:
+				sb.WriteString(g.table(true))
+			case 2:
+				sb.WriteString(g.embed())
+			default:
 				sb.WriteString(g.inline(g.R.Range(1, 5), 0))
 			}
 		}
@@ -262,7 +292,11 @@ func (g *PageGen) quote(depth int) string {
 		case c < 9 && depth < 2:
 			sb.WriteString(g.quote(depth + 1))
 		default:
-			sb.WriteString(g.inline(g.R.Range(5, 25), 0))
+			if g.R.Chance(30) {
+				sb.WriteString(g.table(true))
+			} else {
+				sb.WriteString(g.inline(g.R.Range(5, 25), 0))
+			}
 		}
 	}
 	sb.WriteString("</blockquote>\n")
@@ -370,7 +404,15 @@ func (g *PageGen) table(data bool) string {
 
 func (g *PageGen) hidden() string {
 	inner := g.words(g.R.Range(1, 8))
-	switch g.R.Intn(15) {
+	switch g.R.Intn(19) {
+	case 15:
+		return `<figure hidden>` + g.img() + `<figcaption>` + inner + `</figcaption></figure>`
+	case 16:
+		return `<figure style="display:none">` + g.img() + `<figcaption>` + inner + ` <a href="` + g.linkURL() + `">` + g.words(1) + `</a></figcaption></figure>`
+	case 17:
+		return `<figure aria-hidden="true">` + g.img() + `<figcaption>` + inner + `</figcaption></figure>`
+	case 18:
+		return `<blockquote class="twitter-tweet" style="visibility:hidden"><p>` + inner + `</p><a href="https://twitter.com/u/status/55">x</a></blockquote>`
 	case 12:
 		return `<div style="display:none !important">` + inner + `</div>`
 	case 13:
@@ -478,6 +520,13 @@ func (g *PageGen) unlikely(depth int) string {
 		tag = g.R.Pick("div", "div", "section", "aside", "ul")
 	}
 	inner := g.blocks(g.R.Range(1, 3), depth+1)
+	inTable := g.SafeMarkers && how == 1 && g.R.Chance(35)
+	if inTable {
+		// a role that is not an ARIA landmark (those turn the table into a data table)
+		role = g.R.Pick("menu", "menubar", "alert", "alertdialog", "dialog")
+		tag = "div"
+		inner = "<p>" + g.words(g.R.Range(10, 40)) + "</p>"
+	}
 	if tag == "ul" {
 		inner = "<li>" + inner + "</li>"
 	}
@@ -489,13 +538,17 @@ func (g *PageGen) unlikely(depth int) string {
 	case 1:
 		attr, neutral = `role="`+role+`"`, `role="note"`
 	}
+	pre, post := "", ""
+	if inTable {
+		pre, post = "<table><tr><td><p>"+g.words(30)+"</p>", "</td></tr></table>\n"
+	}
 	switch g.MarkMode {
 	case 1:
-		return ""
+		return pre + post
 	case 2:
-		return "<" + tag + " " + neutral + ">" + inner + "</" + tag + ">\n"
+		return pre + "<" + tag + " " + neutral + ">" + inner + "</" + tag + ">\n" + post
 	}
-	return "<" + tag + " " + attr + ">" + inner + "</" + tag + ">\n"
+	return pre + "<" + tag + " " + attr + ">" + inner + "</" + tag + ">\n" + post
 }
 
 func (g *PageGen) block(depth int) string {
